@@ -6,7 +6,7 @@ set -u
 d=$(realpath "$1")
 export GOFLAGS=-mod=mod GOPROXY=off GOSUMDB=off GOTOOLCHAIN=local
 wt=$(mktemp -d /tmp/seedwt.XXXXXX)
-git -C /repo worktree add -q --detach "$wt" HEAD || exit 2
+git -C /repo worktree add -q --detach "$wt" "${SEED_BASE:-HEAD}" || exit 2
 trap 'git -C /repo worktree remove --force "$wt" >/dev/null 2>&1; rm -rf "$wt"' EXIT
 place=$(head -1 "$d/demo_test.go" | sed -n 's#^// place in: *##p' | tr -d ' \r')
 [ -z "$place" ] && { echo "no '// place in:' line"; exit 2; }
